@@ -260,6 +260,8 @@ def run_case(col, case):
         term = case["term"]
         inner, ident = inner_render(case["kind"], w, h)
         world.setup(ident, *term, cell=(2, 3))
+        if case.get("stdout_size"):
+            world.W.tty.stdout_size = tuple(case["stdout_size"])
         from ..imgkit import pattern
 
         style = case["kind"].split("-")[0]
@@ -356,6 +358,8 @@ def run_case_f(col, case):
         left, top, _, _ = ref_offsets(w, h, W, H, ha, va)
     right, bottom = W - w - left, H - h - top
     sig = dict(part="F", padcls=padcls, via=via, relative=rel)
+    if case.get("stdout_size"):
+        sig["stdout"] = "not-the-terminal"
     jcase = dict(case, pad="aligned")
 
     def bad(clause, what):
@@ -366,6 +370,8 @@ def run_case_f(col, case):
         c = dict(api="new", cls="TextR", mode=case["kind"], frames=frames, loops=1, cache=False, size=(w, h),
                  pad=("aligned", pw, ph, ha, va, fill), padcls=padcls, term=term, row0=0, isatty=True,
                  allow_scroll=True)
+        if case.get("stdout_size"):
+            c["stdout_size"] = case["stdout_size"]
         exp = cc.expected(c)
         if (exp.W, exp.H, exp.left, exp.top) != (W, H, left, top):
             raise world.HarnessError("C05 part F: reference geometries disagree")
@@ -384,6 +390,10 @@ def run_case_f(col, case):
                             scrolls_expected=run.term.scrolls)
         return
     world.setup("other", *term)
+    if case.get("stdout_size"):
+        # standard output is not the active terminal: fd 1 / COLUMNS x LINES report another size; relative
+        # dimensions refer to the active terminal
+        world.W.tty.stdout_size = tuple(case["stdout_size"])
     cls = cc.padding_class(padcls)
     pad = cls(pw, ph, P.HAlign(ha), P.VAlign(va), fill)
     r = ns.make(2, (w, h), mode=case["kind"])
@@ -446,6 +456,11 @@ def build_cases_f(quick):
                     continue
                 cases.append(dict(part="F", padcls=padcls, dims=d, align=al, fill=fill, size=size, kind=kind, via=via,
                                   term=term))
+    # a slice with standard output not being the active terminal (the environment reports 80x24)
+    for padcls, d, via in itertools.product(("base", "thirds"), [x for x in dims if min(x) <= 0],
+                                            ("render", "iter", "set_padding", "draw", "draw-animated")):
+        cases.append(dict(part="F", padcls=padcls, dims=d, align=(1, 1), fill=" ", size=(2, 2), kind="plain", via=via,
+                          term=(6, 5), stdout_size=(80, 24)))
     return cases
 
 
@@ -589,6 +604,11 @@ def build_cases(tier):
                                         continue
                                 cases.append(dict(part="C", kind=kind, size=size, term=term, tight=False,
                                                   args=(ha, pw, va, ph)))
+    # a slice of part C with standard output not being the active terminal (the environment reports 80x24)
+    for kind, (pw, ph), va in itertools.product(("block", "kitty-lines"), [(None, None), (0, None), (None, 0), (0, 0), (4, None)],
+                                                ("", "_")):
+        cases.append(dict(part="C", kind=kind, size=(2, 1), term=(6, 5), tight=False, args=("", pw, va, ph),
+                          stdout_size=(80, 24)))
     for terms in (((12, 8), (8, 6)), ((8, 6), (12, 8))):
         for size in ("FIT", "ORIGINAL") if quick else ("FIT", "AUTO", "ORIGINAL", "FIT_TO_WIDTH"):
             for ha in "<|>":
